@@ -76,7 +76,7 @@ PROPS["C01"] = {
     "level_text": "Theorems (regenerated code): each record* adds exactly +1/+size/+entries with saturation; the aggregator records every delivered tree exactly once in any order. Correspondence+judge: every census number of the real sizes.Graph equals clamp(census) computed over Nat by the Lean spec.",
     "level_note": "Trusted: Lean kernel, go2lean; graph.go is modelled (Agg + Model/Graph) and tied by differential testing; that rev-list delivers exactly the reachable set is git's contract (validated end-to-end, not proved). Whole-run theorem `census_exact` (via `Graph.run_numbers`): for EVERY repository description and EVERY valid schedule the run completes and all census counters are the saturated true totals (non-vacuity: Props/T1 exhibits a concrete valid run). The model it is proved of is tied to graph.go by the graph engine.",
     "technique": "Lean 4 proof over regenerated source + aggregator theorem + differential correspondence with Nat-level spec judge",
-    "modules": ["GitSizer.Props.C01", "GitSizer.Props.T1"], "engines": [{"name": "graph", "quick": 6000, "thorough": 400000, "per_shard": 1500}, {"name": "e2e", "quick": 160, "thorough": 16000, "per_shard": 20}], "rule": _GRAPH_RULE,
+    "modules": ["GitSizer.Props.C01", "GitSizer.Props.T1"], "engines": [{"name": "graph", "quick": 6000, "thorough": 400000, "per_shard": 1500}, {"name": "e2e", "quick": 320, "thorough": 16000, "per_shard": 20}], "rule": _GRAPH_RULE,
 }
 PROPS["C02"] = {
     "level_text": "Theorems (regenerated code): AdjustMaxIfNecessary/IfPossible compute max for ALL pairs, record* apply them to commit size, parent count, tree entries, blob size; witness changes iff the maximum does. Judge: the four maxima of the real Graph equal the true maxima, witnesses attain them.",
@@ -88,7 +88,7 @@ PROPS["C03"] = {
     "level_text": "Theorems: depthN is the longest parent chain (upper bound for every chain + explicit witness chain) for every DAG; every registered commit's memo = clamp32(depthN) for every schedule the code accepts (induction over the run); history/tag depth are maxima (regenerated). Judge: commit and tag memos and both maxima equal the Nat-level depth tables for every generated DAG and schedule.",
     "level_note": "As C01; the model has no timestamps, so independence of dates is by construction of the model and checked end-to-end with adversarial dates. Tag depth for arbitrary tag order is a theorem (`tag_memo_is_depth`, aggregator instance); `depth_maxima_exact` gives both maxima for every valid whole run.",
     "technique": "Lean 4 proof (induction over runs, longest-chain characterisation) + differential correspondence",
-    "modules": ["GitSizer.Props.C03", "GitSizer.Props.T1"], "engines": [{"name": "graph", "quick": 6000, "thorough": 400000, "per_shard": 1500}, {"name": "e2e", "quick": 160, "thorough": 16000, "per_shard": 20}], "rule": _GRAPH_RULE,
+    "modules": ["GitSizer.Props.C03", "GitSizer.Props.T1"], "engines": [{"name": "graph", "quick": 6000, "thorough": 400000, "per_shard": 1500}, {"name": "e2e", "quick": 320, "thorough": 16000, "per_shard": 20}], "rule": _GRAPH_RULE,
 }
 PROPS["C04"] = {
     "level_text": "Theorems: the regenerated add* methods are joins in a commutative monoid; clamp is a homomorphism from the true Nat algebra; hence for ANY delivery order every finalised tree's memo = clamp(true recursive expansion); recordTree maximises the seven dimensions independently; `checkout_maxima_exact`: after every valid whole run each of the seven figures is the saturated maximum over all delivered trees of the true expansion. Judge: all tree memos and the seven maxima of the real Graph equal the clamped Nat expansion.",
@@ -100,7 +100,7 @@ PROPS["C09"] = {
     "level_text": "Theorems: any two valid delivery orders of the same tree set give identical memos, no record remains, the finalisation log is a permutation of the delivered set; commit memos agree across schedules; saturating sums are permutation-invariant; `whole_run_order_independent`: two valid schedules of the same objects, any orders and interleavings, both complete and give the same 22 numbers. Judge: numbers of the real Graph equal the order-free Nat spec under driver-like, children-first, referrers-first and random schedules.",
     "level_note": "As C01. Storage layout (loose/packed) and root order are checked end-to-end (engine e2e), not proved.",
     "technique": "Lean 4 proof (corollaries of the aggregator theorem) + differential correspondence over schedules",
-    "modules": ["GitSizer.Props.C09", "GitSizer.Props.T1"], "engines": [{"name": "graph", "quick": 6000, "thorough": 400000, "per_shard": 1500}, {"name": "e2e", "quick": 160, "thorough": 16000, "per_shard": 20}], "rule": _GRAPH_RULE,
+    "modules": ["GitSizer.Props.C09", "GitSizer.Props.T1"], "engines": [{"name": "graph", "quick": 6000, "thorough": 400000, "per_shard": 1500}, {"name": "e2e", "quick": 320, "thorough": 16000, "per_shard": 20}], "rule": _GRAPH_RULE,
 }
 
 PROPS["C11"] = {
